@@ -166,8 +166,12 @@ def run(tier):
         for kind, nm, xs in decls:
             if kind == "fn" and (len(set(xs)) < len(xs) or set(xs) & set(consts)): codes.add("424")
             if kind == "struct" and len(set(xs)) < len(xs): codes.add("426")      # members only clash with members of the same structure (D71)
+        # every structure is also USED as a type (a constant of the same name must not get in the way)
+        for st_ in sorted(set(structs)):
+            decls.append(("user", st_, None))
         def render_d(d):
             kind, nm, xs = d
+            if kind == "user": return "fn use_%s(v: &%s)\n{\n}\n" % (nm, nm)
             if kind == "fn": return "fn %s(%s)\n{\n}\n" % (nm, ", ".join("%s: i32" % x for x in xs))
             if kind == "const": return "const %s: i32 = 1;\n" % nm
             return "struct %s\n{\n%s}\n" % (nm, "".join("\t%s: i32,\n" % x for x in xs))
